@@ -39,6 +39,8 @@ pub enum RunnerEv
     RootExit(Entity),
     /// The runner returns (every `Enter` has exactly one `Exit`).
     Exit(Entity),
+    /// A garbage collection pass has received this entity from the auto-despawn channel (it despawns it next).
+    GcTake(Entity),
 }
 
 /// Starts (or stops, with `false`) recording runner events on this thread.
